@@ -37,7 +37,7 @@ ASSUMPTIONS = [
     'POST /media/inspect needs Flask\'s optional async support (asgiref), absent from this environment: its RuntimeError is not judged; the outbound-fetch url field is never used (no network)',
     'shims + werkzeug test client as HTTP boundary',
 ]
-REQUIRED_COUNTERS = ['a.requests', 'a.path_requests', 'd.requests', 'a.options_covered', 'b.parser_inputs', 'b.http_uploads', 'c.sequences',
+REQUIRED_COUNTERS = ['e.requests', 'e.followed_urls', 'a.requests', 'a.path_requests', 'd.requests', 'a.options_covered', 'b.parser_inputs', 'b.http_uploads', 'c.sequences',
                      'c.synthetic_seen', 'reach.check_for_synthetic_http_error', 'reach.calculate_injected_error_segments',
                      'reach.load']
 
@@ -94,6 +94,14 @@ class Fuzz:
         self.mps = add_mps_db(env, 'c16mps', [
             {'pid': 'p1', 'stream': 'bbb', 'start': 4, 'duration': 32, 'tracks': [('video', 1, 'main'), ('audio', 2, 'main')]},
             {'pid': 'p2', 'stream': 'tears', 'start': 8, 'duration': 44, 'tracks': [('video', 1, 'main'), ('audio', 2, 'main')]}])
+        # stored streams whose layout differs from the fixtures (part E)
+        from dlv import synth
+        synth.add_protection_variants_stream(env)        # sy5: two key ids in one track, no mehd
+        synth.add_multitrack_audio_stream(env)           # mta: two audio tracks, several files each
+        synth.add_retracked_video_stream(env)            # vt5: video on track 5
+        env.add_dotted_names_stream()                    # dots: media names with dots
+        env.add_legacy_names_stream()                    # lgcy: names with the .mp4 suffix
+        self.layout_streams = ['sy5', 'mta', 'vt5', 'dots', 'lgcy']
         env.clock.set(NOW)
         self.client = env.client()
         self.legit_lines = 150000
@@ -256,6 +264,121 @@ class Fuzz:
                 break
         res.count('a.options_covered', len(covered))
         self.part_a_paths()
+
+    # ------------------------------------------------------------------ (E)
+    def legal_values(self) -> dict[str, list[str]]:
+        """cgi name -> texts that are legal for that option: its listed choices plus values of its declared type"""
+        from dashlive.server.options.repository import OptionsRepository
+        out: dict[str, list[str]] = {}
+        for o in OptionsRepository.get_dash_options():
+            name, t = o.cgi_name, (o.cgi_type or '')
+            if name in ('mode', 'verr', 'aerr', 'terr', 'merr', 'failures', 'update'):
+                continue            # the path / deliberate failures (part C)
+            vals = []
+            for ch in (o.cgi_choices or ()):
+                v = ch[1] if isinstance(ch, tuple) else ch
+                if v is not None:
+                    vals.append(str(v))
+            if name in ('dashjs', 'shaka'):
+                vals += ['4.5.0', '3.2.2', '4.7.3']                       # any released version
+            elif name == 'drm':
+                vals += ['playready-pro', 'all-moov', 'clearkey-cenc,marlin', 'playready,clearkey', 'all-cenc-pro']
+            elif name == 'start':
+                vals += [START, '2024-06-06T11:00:00+01:00', '2024-06-05T23:59:59.5Z']
+            elif name.endswith('la_url'):
+                vals += ['https://lic.example.test/la?a=1&b=2', 'https://lic.example.test/{default_kid}']
+            elif name == 'vcorrupt':
+                vals += ['12:30:00Z', '5', '11250,11251']
+            elif name in ('main_audio', 'ad_audio', 'main_text'):
+                vals += ['bbb_a1', 'bbb_a2', 'mta_a2', 'bbb_t1', 'nosuch']
+            elif name == 'tlang':
+                vals += ['en', 'und']
+            elif name == 'time_value':
+                vals += ['abc']
+            elif name in ('events',):
+                vals += ['ping,scte35', 'scte35,ping']
+            elif name.endswith('__inband'):
+                vals += ['0', '1']
+            elif name.endswith('__value'):
+                vals += ['7', 'abc']
+            elif '<int>' in t or '<number>' in t or '<seconds>' in t or name in ('leeway', 'frames'):
+                vals += ['0', '1', '2', '7', '30', '100', '1000']
+            out[name] = sorted(set(vals))
+        return {k: v for k, v in out.items() if v}
+
+    def part_e(self) -> None:
+        """Legal requests only: options with listed or well-typed values, in combinations, on stored streams
+        whose layout differs from the fixtures; every URL of the answers is followed once."""
+        from dlv.checks.c05 import ALL_TEMPLATES
+        from dlv.livewalk import LiveWalk
+        from dlv.oracles import mpd as M
+        from urllib.parse import quote
+        ctx, res, rng = self.ctx, self.res, self.ctx.rng
+        legal = self.legal_values()
+        names = sorted(legal)
+        streams = ['bbb', 'tears'] + self.layout_streams
+        n = ctx.scale(400, 40000)
+        for i in range(n):
+            stream = rng.choice(streams)
+            manifest, modes = rng.choice(ALL_TEMPLATES)
+            mode = rng.choice(modes)
+            picks = rng.sample(names, rng.choice([1, 2, 2, 3, 4, 5]))
+            q = {}
+            for name in picks:
+                q[name] = rng.choice(legal[name])
+                if '__' in name:
+                    prefix = name.split('__')[0]
+                    if prefix in ('ping', 'scte35'):
+                        q.setdefault('events', prefix)
+                    else:
+                        q.setdefault('drm', rng.choice([prefix, 'all']))
+                if name in ('dashjs', 'shaka'):
+                    q.setdefault('player', 'dashjs' if name == 'dashjs' else 'shaka')
+            qs_ = '&'.join(f'{k}={quote(v, safe="=,:-")}' for k, v in sorted(q.items()))
+            page = rng.random() < 0.2 or bool({'player', 'dashjs', 'shaka'} & set(q))
+            if page:
+                url = f'/play/{mode}/{stream}/{manifest}/index.html?{qs_}'
+            else:
+                url = f'/dash/{mode}/{stream}/{manifest}?{qs_}'
+            rp = {'a': {'url': url, 'now': NOW.isoformat()}}
+            r = self.request('GET', url, 'e', f'legal combination on {stream}', rp)
+            res.count('e.requests')
+            res.evaluations += 1
+            res.case(f'E|{stream}|{"page" if page else manifest}|{mode}|{"+".join(sorted(q))}|{getattr(r, "status_code", None)}')
+            if r is None or page or r.status_code != 200:
+                continue
+            try:
+                doc = M.parse_mpd(r.data, 'http://localhost' + url)
+            except Exception:
+                continue
+            seen = set()
+            for period, rep in doc.all_reps():
+                if id(rep.adaptation_element) in seen:
+                    continue
+                seen.add(id(rep.adaptation_element))
+                urls = []
+                try:
+                    if mode == 'odvod':
+                        urls.append((rep.base_url, {'Range': 'bytes=0-199'}))
+                    else:
+                        if rep.init_url():
+                            urls.append((rep.init_url(), {}))
+                        if rep.timeline:
+                            urls.append((rep.media_url(number=rep.start_number, time=rep.timeline[-1].t), {}))
+                        elif doc.type == 'dynamic':
+                            adds = M.live_addressable(doc, period, rep, self.env.clock.instant)
+                            if adds:
+                                urls.append((adds[-1].url, {}))
+                        else:
+                            urls.append((rep.media_url(number=rep.start_number), {}))
+                except M.MpdError:
+                    continue
+                for u, hdrs in urls:
+                    res.count('e.followed_urls')
+                    self.request('GET', LiveWalk._path(u), 'e', f'URL of the manifest {url}',
+                                 {'a': {'url': LiveWalk._path(u), 'now': NOW.isoformat()}}, headers=hdrs)
+            if i % 20 == 0 and ctx.out_of_time():
+                break
 
     def part_a_paths(self) -> None:
         """(A2) boundary and type-confused values in the path parameters of every media, manifest and patch route"""
@@ -778,8 +901,10 @@ def run_shard(ctx: ShardCtx) -> ShardResult:
             fz.part_c()
             ctx.budget_s = total * 0.3
             part_d(ctx, res)
-            ctx.budget_s = total * 0.6
+            ctx.budget_s = total * 0.55
             fz.part_b()
+            ctx.budget_s = total * 0.72
+            fz.part_e()
             ctx.budget_s = total
             fz.part_a()
         reach.report(res)
